@@ -119,6 +119,7 @@ func runC18(r *Run) {
 		c18NotificationDuringMonitor(r, h)
 		c18ProbeStall(r, h)
 		c18CutAfterReply(r, h)
+		c18SilentPeer(r, h)
 	}
 }
 
